@@ -56,7 +56,7 @@ C08NoRelease(nd)   ==
 (* ---------------------------------------------------------------- conformance *)
 Walk(nd) == nd.args.mode = "w"
 Predicted == {"Lend", "Deposit", "Withdraw", "CloseLend", "Borrow", "BorrowAlt", "DepositBorrow", "Draw", "Repay", "CloseBorrow",
-              "RepayWithdraw", "FundReserve", "Price", "Accrue", "Liquidate"}
+              "RepayWithdraw", "FundReserve", "FundMod", "CalcInterest", "Price", "Accrue", "Liquidate"}
 (* lend / borrow position the handler touches (and accrues) *)
 TouchedLend(nd) ==
   LET s == Pre(nd) a == nd.args IN
@@ -97,6 +97,11 @@ ObsEnv(nd) ==
               mint |-> IF settles THEN Stat(s2, pr.opool, pr.aout).tia - Stat(s, pr.opool, pr.aout).tia ELSE 0,
               frac |-> 1,
               rT |-> IF nd.a = "Repay" /\ HasId(s2.borrows, bid) /\ GetId(s2.borrows, bid).out = b.out THEN a.amt ELSE 0]
+(* interest-calculation message: per-position amounts as observed (reward = growth of the position's reward counter) *)
+ObsEnvCalc(nd) ==
+  LET s == Pre(nd) s2 == Post(nd) IN
+  [NoEnv EXCEPT !.rew = [lid \in {l.id : l \in {x \in Range(s.lends) : HasId(s2.lends, x.id)}} |-> GetId(s2.lends, lid).rew - GetId(s.lends, lid).rew],
+                !.int = [bid \in {b.id : b \in {x \in Range(s.borrows) : HasId(s2.borrows, x.id)}} |-> GetId(s2.borrows, bid).iT]]
 (* environment of the walk: no time passes between the steps *)
 WalkEnv(nd) ==
   LET s == Pre(nd) a == nd.args IN
@@ -118,6 +123,8 @@ Act(nd, env) ==
     [] nd.a = "CloseBorrow" -> CloseBorrow(cfg, s, a.u, a.b, env)
     [] nd.a = "RepayWithdraw" -> RepayWithdraw(cfg, s, a.u, a.b, env)
     [] nd.a = "FundReserve" -> FundReserve(cfg, s, a.u, a.asset, a.da, a.amt)
+    [] nd.a = "FundMod" -> FundMod(cfg, s, a.u, a.pool, a.asset, a.da, a.amt)
+    [] nd.a = "CalcInterest" -> CalcInterest(cfg, s, a.u, env)
     [] nd.a = "Price" -> Done(SetPrice(s, a.asset, a.p * cfg.pu))
     [] nd.a = "Accrue" -> AccrueEnv(s, a.b, a.d)
     [] nd.a = "Liquidate" ->   \* V2 internal-keeper request: either the position is handed over (interest as observed) or nothing happens
@@ -127,7 +134,7 @@ Act(nd, env) ==
 Conf(nd) ==
   Predictable(nd) =>
     IF Walk(nd) THEN LET r == Act(nd, WalkEnv(nd)) IN r.ok = nd.res.ok /\ r.st = Post(nd)
-    ELSE IF nd.res.ok THEN LET r == Act(nd, ObsEnv(nd)) IN r.ok /\ r.st = Post(nd)
+    ELSE IF nd.res.ok THEN LET r == Act(nd, IF nd.a = "CalcInterest" THEN ObsEnvCalc(nd) ELSE ObsEnv(nd)) IN r.ok /\ r.st = Post(nd)
     ELSE Post(nd) = Pre(nd)
 (* the walk's model edge carried the model's own verdict: it is the verdict the specification computes here *)
 ConfModel(nd) == ~IsRoot(nd) /\ Walk(nd) /\ "mok" \in DOMAIN nd.res => Act(nd, WalkEnv(nd)).ok = nd.res.mok
@@ -136,7 +143,7 @@ ConfNames == {"Conf_" \o x : x \in Predicted}
 Formulas == <<"C08_BooksRoot", "C08_BooksLend", "C08_BooksLendHandOver", "C08_BooksLendHandOverDrop", "C08_BooksBorrow", "C08_Ltv", "C08_LtvMismatched", "C08_LtvOpenBridged", "C08_LtvDrawBridged", "C08_PoolHeld",
               "C08_NoRelease", "Conf_Model", "Conf_Lend", "Conf_Deposit", "Conf_Withdraw", "Conf_CloseLend", "Conf_Borrow", "Conf_BorrowAlt",
               "Conf_DepositBorrow", "Conf_Draw", "Conf_Repay", "Conf_CloseBorrow", "Conf_RepayWithdraw", "Conf_FundReserve", "Conf_Price",
-              "Conf_Accrue", "Conf_Liquidate">>
+              "Conf_Accrue", "Conf_Liquidate", "Conf_FundMod", "Conf_CalcInterest">>
 Holds(f, i) ==
   LET nd == Nd(i) IN
   CASE f = "C08_BooksRoot" -> C08BooksRoot(nd)
